@@ -347,7 +347,7 @@ def run_impl(case: Case) -> ImplResult:
         try: Hfr, Hffr = fresh_energy(s)
         except PROP_ERRORS: return None
         if not (math.isfinite(Hfr) and math.isfinite(Hffr)): return None
-        tolv = 1e-9 * (scale + abs(Hfr) + abs(Hffr)) + 1e-9
+        tolv = 1e-9 * (scale + abs(Hfr) + abs(Hffr)) + 1e-15
         if not abs(H - Hfr) <= tolv or not abs(Hnet - (Hfr + Hffr)) <= tolv:
             fail('Hnet-not-current:' + where,
                  f'{where}: stream.H = {H!r}, stream.Hnet = {Hnet!r} but a freshly built stream with the same flows, phase, '
@@ -402,6 +402,19 @@ def run_impl(case: Case) -> ImplResult:
             rx[rid] = x
             emit('set %s %s %s' % (rid, kind, ','.join(ids)), 'ok')
             tags.add('set:' + kind)
+        elif op == 'reorder':
+            # the set is moved onto the other compiled Chemicals object (same species, another order) with the public
+            # `reset_chemicals`; it must keep taking each conversion from its own reactant
+            x = rx[t[1]]
+            if x['kind'] in ('par', 'ser') and x['singles'][0]['rec']['phases']:
+                x['obj'].reset_chemicals(tb.chemicals)
+                tags.add('set-moved-to-other-chemicals-order')
+                got = tuple(x['obj'].reactants)
+                want = tuple(m['rec']['reactant'] for m in x['singles'])
+                if got != want:
+                    fail('reset_chemicals-changed-reactants',
+                         f'after {type(x["obj"]).__name__}.reset_chemicals(<same chemicals, other order>) the reactants are {got}, '
+                         f'before they were {want}')
         elif op == 'Y':
             rid, ids = t[1], t[2].split(',')
             members = [rx[i] for i in ids]
@@ -478,6 +491,9 @@ def run_impl(case: Case) -> ImplResult:
             sid, pk, T, P, ph = t[1], int(t[2]), float(t[3]), float(t[4]), t[5]
             flows = [f.split(':') for f in t[6].split(',')] if len(t) > 6 and t[6] else []
             th = thermos[pk]
+            tot_ = sum(float(f[2]) for f in flows)
+            if 0 < tot_ < 1e-2: tags.add('flows:tiny(<1e-2 kmol/hr)')
+            elif tot_ > 5e3: tags.add('flows:huge(>5e3 kmol/hr)')
             tags.add('pkg:PR-mixture' if pk >= 4 else 'pkg:excess-energies' if pk >= 2 else 'pkg:default-mixture')
             if P > 1100000: tags.add('P:15bar')
             if len(ph) == 1:
@@ -669,7 +685,7 @@ def run_impl(case: Case) -> ImplResult:
                     # system is not: the per-reaction feeds cannot be observed on the real code; flows/Hf/Hnet still compared
                     tags.add('iso:stepping-infeasible'); continue
                 scale = scale0 + sum(abs(CHEM[IDS[k % len(IDS)]]['Hf'] * v) for k, v in enumerate(n1)) + abs(H0) + abs(H1)
-                tolv = 1e-9 * scale + 1e-12
+                tolv = 1e-9 * scale + CLAMP_ALLOWANCE
                 # general identity: ΔHnet = Σ dH_k feed_k + (ΔH − latent part)
                 resid = dHnet - (heat - lat + (H1 - H0))
                 if not abs(resid) <= tolv:
@@ -770,6 +786,12 @@ def run_impl(case: Case) -> ImplResult:
 # comparison of answer lines (tolerance mode)
 # --------------------------------------------------------------------------
 
+# what the code's own feasibility step may add to any enthalpy sum: it zeroes negative flows that sum to ≥ −1e-12 (basis
+# units), so a linear functional with |coefficients| ≤ Cmax moves by ≤ Cmax·1e-12 (theorem clamp_bound); Cmax = max |Hf| in
+# J/mol (1.3e6 for glucose), or max |Hf/MW| on the weight basis (smaller)
+CLAMP_ALLOWANCE = 1.3e6 * 1e-12 * 2
+
+
 def _fields(line):
     d = {}
     for tok in line.split(' '):
@@ -808,11 +830,12 @@ def compare(impl_line, model_line):
                 if len(xs) != len(ys): return False
                 xs, ys = [_num(x) for x in xs], [_num(y) for y in ys]
                 m = max([abs(y) for y in ys] + [1e-30])
-                if any(not abs(x - y) <= 1e-9 * m + 1e-12 for x, y in zip(xs, ys)): return False
+                # flows: relative to the largest entry; 2e-12 absolute covers the code's own −1e-12 clamp at tiny flow rates
+                if any(not abs(x - y) <= 1e-9 * m + 2e-12 for x, y in zip(xs, ys)): return False
             else:
                 if v in ('nan', 'none'): return False
                 x, y = _num(v), _num(w)
-                if not abs(x - y) <= 1e-9 * max(sc, abs(y)) + 1e-12: return False
+                if not abs(x - y) <= 1e-9 * max(sc, abs(y)) + CLAMP_ALLOWANCE: return False
         return True
     except (KeyError, ValueError, ZeroDivisionError):
         return False
@@ -962,6 +985,8 @@ def gen_case(rng):
     for i in ids: ops.append('dh ' + i)
     for g in ('p0', 'q0', 'g0', 'g1'):
         if any(o.startswith(('P ' + g + ' ', 'Q ' + g + ' ')) for o in ops): ops.append('dh ' + g)
+    if tagging and tagging != 'bad' and structure in ('par', 'ser') and rng.random() < 0.3:
+        ops.append('reorder ' + top); ops.append('dh ' + top)
     if tagging == 'bad': return Case(ops, {})
     nused = nrx if structure != 'single' else 1
     dh_ops = [o for o in ops if o.startswith('dh ')]
@@ -1017,7 +1042,9 @@ def gen_case(rng):
             rk = {key(rct, eq) for rct, eq in zip(ureact, ueqs)}
             for k_ in list(amt):
                 if k_ not in rk: amt[k_] *= 0.3          # deficient feed: InfeasibleRegion expected
-        flows = ['%s:%s:%s' % (ID, p_, num(a)) for (ID, p_), a in amt.items()]
+        # overall scale of the stream: the property sets no lower bound on flow rates (bench scale … plant scale)
+        fscale = rng.choice([1, 1, 1, 1, 1, 1, 1e-3, 1e-6, 1e-9, 1e3])
+        flows = ['%s:%s:%s' % (ID, p_, num(a * fscale)) for (ID, p_), a in amt.items()]
         P = rng.choice([101325, 101325, 50000, 202650, 1000000, 1500000])
         # property package: chemical order A or B, default ideal mixture or the one that includes excess energies
         # chemical order A / B × mixture model: default ideal, ideal with excess energies, Peng–Robinson equation of state
